@@ -31,7 +31,10 @@
 (***************************************************************************)
 EXTENDS Integers, Sequences, FiniteSets, TLC
 
-CONSTANTS MaxOps, Export, ShapeSet, ValSet
+CONSTANTS MaxOps, Export, ShapeSet, ValSet,
+          DataMod,   \* the machine is run on one in DataMod of the data assignments (the laws configuration takes all: DataMod = 1)
+          Track      \* TRUE: histories are recorded and exported (the machine); FALSE: only the trees reachable by the structural
+                     \* actions are visited, each once, and the laws are checked on them
 
 \* (max, min) of one base case on the followed row
 Vals == CASE ValSet = "three" -> {<<1, 0 - 2>>, <<3, 0 - 2>>, <<3, 1>>}
@@ -67,41 +70,51 @@ LeafEnv(l) ==
                        mincase |-> IF v[2] < acc.mn THEN <<CaseName(id)>> ELSE acc.mincase])
   IN F(1, <<>>)
 
-RECURSIVE Env(_, _)
-\* the code's fold: children in order, strict comparison (the first one attaining a value keeps it).
-\* es[j] = envelope of the j-th child taken, ks[j] = its key, nd[j] = whether it is a node
+\* label of a child's contribution (the code's _mk_case_lbls): da = 2 behaves as 1 above the lowest level
+Lbl(da, key, isnode, kidlabel) ==
+  LET d == IF isnode /\ da = 2 THEN 1 ELSE da IN
+  IF d = 1 THEN <<key>> \o kidlabel ELSE IF d = 3 THEN kidlabel ELSE <<key>>
+
+\* the code's fold over the envelopes es[j] of the children taken in order ks (strict comparison: the first one attaining a value
+\* keeps it); nd[j] = whether the j-th child is itself a node
 FoldSeq(ks, nd, es, da) ==
-  LET L(j, lab) == LET d == IF nd[j] /\ da = 2 THEN 1 ELSE da IN
-                   IF d = 1 THEN <<ks[j]>> \o lab ELSE IF d = 3 THEN lab ELSE <<ks[j]>>       \* the code's _mk_case_lbls
-      RECURSIVE F(_, _)
+  LET RECURSIVE F(_, _)
       F(j, acc) == IF j > Len(ks) THEN acc ELSE
-        LET e == es[j]  lmax == L(j, e.maxcase)  lmin == L(j, e.mincase) IN
+        LET e == es[j]  lmax == Lbl(da, ks[j], nd[j], e.maxcase)  lmin == Lbl(da, ks[j], nd[j], e.mincase) IN
         F(j + 1, IF j = 1 THEN [mx |-> e.mx, mn |-> e.mn, mxid |-> e.mxid, mnid |-> e.mnid, maxcase |-> lmax, mincase |-> lmin]
                  ELSE [mx |-> IF e.mx > acc.mx THEN e.mx ELSE acc.mx, mxid |-> IF e.mx > acc.mx THEN e.mxid ELSE acc.mxid,
                        maxcase |-> IF e.mx > acc.mx THEN lmax ELSE acc.maxcase,
                        mn |-> IF e.mn < acc.mn THEN e.mn ELSE acc.mn, mnid |-> IF e.mn < acc.mn THEN e.mnid ELSE acc.mnid,
                        mincase |-> IF e.mn < acc.mn THEN lmin ELSE acc.mincase])
   IN F(1, <<>>)
-KidEnvs(keys, kids, ord, da) ==
-  LET Pos(k) == CHOOSE i \in 1..Len(keys) : keys[i] = k IN
-  [j \in 1..Len(ord) |-> [e |-> Env(kids[Pos(ord[j])], da), nd |-> kids[Pos(ord[j])].kind = "node"]]
-Env(n, da) == IF n.kind = "leaf" THEN LeafEnv(n)
-              ELSE LET ke == KidEnvs(n.keys, n.kids, n.keys, da) IN
-                   FoldSeq(n.keys, [j \in 1..Len(ke) |-> ke[j].nd], [j \in 1..Len(ke) |-> ke[j].e], da)
 
-\* the 'extreme' entry of a node: envelope, the children it was formed over (.cases), their own maxima / minima (.mx, .mn columns)
-MkEx(keys, kids, ord, da) ==
-  LET ke == KidEnvs(keys, kids, ord, da)
-      e == FoldSeq(ord, [j \in 1..Len(ke) |-> ke[j].nd], [j \in 1..Len(ke) |-> ke[j].e], da) IN
+\* envelope of a subtree, computed from scratch (used by the laws)
+RECURSIVE Env(_, _)
+Env(n, da) == IF n.kind = "leaf" THEN LeafEnv(n)
+              ELSE FoldSeq(n.keys, [j \in 1..Len(n.kids) |-> n.kids[j].kind = "node"], [j \in 1..Len(n.kids) |-> Env(n.kids[j], da)], da)
+
+\* the 'extreme' entry of a node from the envelopes of its children: the envelope, the children it was formed over (.cases) and
+\* their own maxima / minima (.mx, .mn columns)
+ExOf(ord, nd, es, da) ==
+  LET e == FoldSeq(ord, nd, es, da) IN
   [has |-> TRUE, da |-> da, cases |-> ord, mx |-> e.mx, mn |-> e.mn, mxid |-> e.mxid, mnid |-> e.mnid,
    maxcase |-> e.maxcase, mincase |-> e.mincase,
-   mxs |-> [j \in 1..Len(ord) |-> ke[j].e.mx], mns |-> [j \in 1..Len(ord) |-> ke[j].e.mn]]
+   mxs |-> [j \in 1..Len(ord) |-> es[j].mx], mns |-> [j \in 1..Len(ord) |-> es[j].mn]]
+MkEx(keys, kids, ord, da) ==
+  LET Pos(k) == CHOOSE i \in 1..Len(keys) : keys[i] = k IN
+  ExOf(ord, [j \in 1..Len(ord) |-> kids[Pos(ord[j])].kind = "node"], [j \in 1..Len(ord) |-> Env(kids[Pos(ord[j])], da)], da)
 
+\* form_extreme as the code does it: bottom-up, a node's children are enveloped first and THEIR 'extreme' entries are what the node reads
+EnvOfEx(x) == [mx |-> x.mx, mn |-> x.mn, mxid |-> x.mxid, mnid |-> x.mnid, maxcase |-> x.maxcase, mincase |-> x.mincase]
 RECURSIVE Reform(_, _, _)
 Reform(n, da, ord) ==
   IF n.kind = "leaf" THEN n ELSE
-  LET kids2 == [i \in 1..Len(n.kids) |-> Reform(n.kids[i], da, <<>>)] IN          \* case_order is used at the top level only
-  [n EXCEPT !.kids = kids2, !.ex = MkEx(n.keys, kids2, IF ord = <<>> THEN n.keys ELSE ord, da)]
+  LET kids2 == [i \in 1..Len(n.kids) |-> Reform(n.kids[i], da, <<>>)]           \* case_order is used at the top level only
+      o == IF ord = <<>> THEN n.keys ELSE ord
+      Pos(k) == CHOOSE i \in 1..Len(n.keys) : n.keys[i] = k
+      kenv(j) == LET kd == kids2[Pos(o[j])] IN IF kd.kind = "leaf" THEN LeafEnv(kd) ELSE EnvOfEx(kd.ex)
+  IN [n EXCEPT !.kids = kids2,
+               !.ex = ExOf(o, [j \in 1..Len(o) |-> kids2[Pos(o[j])].kind = "node"], [j \in 1..Len(o) |-> kenv(j)], da)]
 RECURSIVE Clear(_)
 Clear(n) == IF n.kind = "leaf" THEN n ELSE [n EXCEPT !.kids = [i \in 1..Len(n.kids) |-> Clear(n.kids[i])], !.ex = NoEx]
 
@@ -123,16 +136,19 @@ Depth(n) == IF n.kind = "leaf" THEN 0 ELSE 1 + (LET ds == {Depth(n.kids[i]) : i 
 SplitOf(l) == Node([i \in 1..Len(l.ids) |-> CaseName(l.ids[i])], [i \in 1..Len(l.ids) |-> Leaf(<<l.ids[i]>>)])
 
 ---------------------------------------------------------------------------
+DataCode(d) == d[1][1] + 2 * d[1][2] + 3 * d[2][1] + 5 * d[2][2] + 7 * d[3][1] + 11 * d[3][2] + 13 * d[4][1] + 17 * d[4][2]
 Init == /\ shape \in ShapeSet
         /\ data \in [1..4 -> Vals]
+        /\ DataCode(data) % DataMod = 0
         /\ (NCases(shape) = 3 => data[4] = data[3])          \* unused case: one representative
         /\ tree = Shape(shape) /\ hist = <<>> /\ trail = <<>>
 
-Step(op, t) == /\ tree' = t /\ hist' = Append(hist, op) /\ trail' = Append(trail, t) /\ UNCHANGED <<shape, data>>
+Step(op, t) == /\ tree' = t /\ UNCHANGED <<shape, data>>
+               /\ IF Track THEN hist' = Append(hist, op) /\ trail' = Append(trail, t) ELSE UNCHANGED <<hist, trail>>
 
 Orders(n) == {<<>>} \cup {[i \in 1..Len(n.keys) |-> n.keys[Len(n.keys) + 1 - i]]} \cup (IF Len(n.keys) >= 2 THEN {<<n.keys[2]>>} ELSE {})
-Form(da, ord) == Len(hist) < MaxOps /\ Step(<<"form", da, ord>>, Reform(tree, da, ord))
-DeleteExt == Len(hist) < MaxOps /\ Step(<<"delete">>, Clear(tree))
+Form(da, ord) == Track /\ Len(hist) < MaxOps /\ Step(<<"form", da, ord>>, Reform(tree, da, ord))
+DeleteExt == Track /\ Len(hist) < MaxOps /\ Step(<<"delete">>, Clear(tree))
 SplitMerge(p) == /\ Len(hist) < MaxOps /\ p # <<>> /\ Len(p) <= 2 /\ At(tree, p).kind = "leaf"
                  /\ Step(<<"splitmerge", p>>, Put(tree, p, SplitOf(At(tree, p))))
 Drop(p, i) == /\ Len(hist) < MaxOps /\ At(tree, p).kind = "node" /\ Len(At(tree, p).keys) >= 2 /\ i \in 1..Len(At(tree, p).keys)
@@ -175,7 +191,8 @@ LabelLaw == \A n \in Subtrees(tree) : n.kind = "node" =>
    /\ Env(n, 1).maxcase = PathTo(n, Env(n, 1).mxid) /\ Env(n, 1).mincase = PathTo(n, Env(n, 1).mnid)
    /\ Env(n, 2).maxcase = SubSeq(PathTo(n, Env(n, 2).mxid), 1, Len(PathTo(n, Env(n, 2).mxid)) - 1)
 \* form_extreme is idempotent, delete_extreme undoes it, and forming always starts from a clean slate
-FormLaws == \A da \in {0, 2} :
+FormLaws == \A da \in 0..3 :
+   /\ Reform(tree, da, <<>>).ex = MkEx(tree.keys, tree.kids, tree.keys, da)          \* bottom-up through the children's entries = from scratch
    /\ Reform(Reform(tree, da, <<>>), da, <<>>) = Reform(tree, da, <<>>)
    /\ Clear(Reform(tree, da, <<>>)) = Clear(tree)
    /\ Reform(Clear(tree), da, <<>>) = Reform(tree, da, <<>>)
@@ -187,5 +204,13 @@ SplitLaw == \A n \in Subtrees(tree) : n.kind = "leaf" =>
 \* an action never touches the base data, and only Form / DeleteExt change 'extreme' entries of surviving nodes
 Bounded == Depth(tree) <= 3 /\ BaseIds(tree) \subseteq 1..4 /\ BaseIds(tree) # {}
 
-ExportHist == (Export /\ Len(hist) = MaxOps) => PrintT(<<"TREE", shape, data, hist, trail>>)
+\* machine-side invariant (cheap): right after form_extreme every entry is fresh - re-forming changes nothing
+LastIsForm == hist # <<>> /\ hist[Len(hist)][1] = "form"
+FreshAfterForm == LastIsForm => Reform(tree, hist[Len(hist)][2], hist[Len(hist)][3]) = tree
+RECURSIVE NoEntries(_)
+NoEntries(n) == n.kind = "leaf" \/ (~n.ex.has /\ \A i \in 1..Len(n.kids) : NoEntries(n.kids[i]))
+CleanAfterDelete == (hist # <<>> /\ hist[Len(hist)][1] = "delete") => NoEntries(tree)
+
+\* every state is exported with its history; the tree after each action of a history is the export of that prefix
+ExportHist == Export => PrintT(<<"TREE", shape, data, hist, tree>>)
 =============================================================================
